@@ -33,6 +33,14 @@ func nxSilence() {
 // warm: bootstrap applied, replica 1 elected, its no-op committed everywhere.
 var nxWarm = []string{"T1", "D*", "H1", "D*"}
 
+func c12rep(items []string, n int) []string {
+	var out []string
+	for i := 0; i < n; i++ {
+		out = append(out, items...)
+	}
+	return out
+}
+
 func nxConfigs(part string, thorough bool) []*nxCfg {
 	pick := func(q, t int) int {
 		if thorough {
@@ -62,6 +70,11 @@ func nxConfigs(part string, thorough bool) []*nxCfg {
 		return []*nxCfg{
 			{Name: "stop-with-pending", N: 3, MaxDev: pick(2, 3), Prefix: nxWarm, Script: []string{"W1", "R2", "W2", "R1", "S2", "W1", "S1"}, Drops: 3, Stops: 1, LazyApplies: 1, Writes: 1, Reads: 1, Horizon: 200},
 			{Name: "expiry", N: 3, MaxDev: pick(2, 3), Prefix: nxWarm, Script: []string{"w1", "r2", "K1", "K2", "K1", "K2", "K1", "K2", "K1", "K2", "K1", "K2", "K1", "K2", "K1", "K2"}, Drops: 4, LazyApplies: 1, Timeouts: 1, Horizon: 200},
+			{Name: "expiry-while-quiesced", N: 3, Quiesce: true, MaxDev: 1, Prefix: nxWarm,
+				// the shard goes quiescent, replica 1 is cut off, then a write and a read with short
+				// timeouts are made at it: they must expire although nothing wakes the replica up
+				Script: append(append(append(append(c12rep([]string{"K1", "K2", "K3"}, 205), "M1", "w1"), c12rep([]string{"K1"}, 12)...), "r1"), c12rep([]string{"K1"}, 12)...),
+				Ticks:  1, Reorders: 1, Horizon: 900},
 			{Name: "notify-commit", N: 3, NotifyCommit: true, MaxDev: pick(2, 3), Prefix: nxWarm, Script: []string{"W1", "W2", "R1", "S1"}, Drops: 2, Stops: 1, LazyApplies: 1, Timeouts: 1, Horizon: 200},
 		}
 	case "c17":
@@ -187,6 +200,10 @@ func TestVerifNodex(t *testing.T) {
 	}
 	for ci, cfg := range cfgs {
 		if ci%run.Shards != run.Shard {
+			continue
+		}
+		if f := os.Getenv("VERIF_ONLY_CFG"); f != "" && !strings.Contains(cfg.Name, f) {
+			res.Cap("development filter VERIF_ONLY_CFG is set")
 			continue
 		}
 		cfg, ci := cfg, ci
